@@ -5,6 +5,7 @@ the unit loop of SCPI_Parse, well-formedness of SCPI_Input, the copy loops of th
 -/
 import ScpiVerif.Model.Ctx
 import ScpiVerif.Props.C13
+import ScpiVerif.Lemmas.Builtin
 
 namespace ScpiVerif.Lemmas.Bounds
 open ScpiVerif ScpiVerif.Lexer ScpiVerif.Parser ScpiVerif.Ctx ScpiVerif.Spec
@@ -402,6 +403,20 @@ theorem core_paramArr_go (w : Nat) (s : Bool) : ∀ (n : Nat) (c : Ctx) (m : Boo
   simp only []
   repeat' split
   all_goals core_close
+
+@[simp] theorem core_regFromParam (c : Ctx) (reg : Nat) : core (regFromParam c reg).1 = core c := by
+  rw [Lemmas.Builtin.regFromParam_eq]
+  have h := core_paramInt c 32 true true
+  dsimp only
+  split
+  · exact h
+  · exact h
+
+/-- the library's own handlers never touch the input buffer -/
+@[simp] theorem core_runBuiltin (c : Ctx) (b : Builtin) : core (runBuiltin c b).1 = core c := by
+  cases hp : Lemmas.Builtin.paramReg b with
+  | none => rw [Lemmas.Builtin.runBuiltin_pure c b hp]; rfl
+  | some p => obtain ⟨reg, strict⟩ := p; rw [Lemmas.Builtin.runBuiltin_param c b reg strict hp]; simp
 
 theorem core_runOp (h : HState) (op : SOp) : core (runOp h op).c = core h.c := by
   unfold runOp
